@@ -230,6 +230,13 @@ func c14objFrom(name string, doc interface{}) c14param {
 	return p
 }
 
+// object parameter given as a raw JSON-like value together with the typed document it must decode to
+func c14objRaw(name string, v interface{}, doc interface{}) c14param {
+	p := c14objFrom(name, doc)
+	p.cv = c14cv(name, common.ValueTypeObject, v)
+	return p
+}
+
 // object parameter that cannot become the target structure
 func c14objBad(name string, v interface{}) c14param {
 	return c14param{name: name, tok: "obj:0:-", cv: c14cv(name, common.ValueTypeObject, v)}
@@ -693,6 +700,7 @@ func TestVerifC14(t *testing.T) {
 			c14other(r, common.ValueTypeObject, map[string]interface{}{"c": make(chan int)}), // json.Marshal fails
 			c14other(r, common.ValueTypeObject, math.NaN()),                                  // json.Marshal fails
 			c14other(r, common.ValueTypeUint32Array, []uint32{1}),
+			{name: r, tok: "null", cv: c14cv(r, common.ValueTypeObject, map[string]interface{}(nil))}, // typed nil map: JSON null
 		}
 		switch r {
 		case ResourceROSpec:
@@ -704,7 +712,11 @@ func TestVerifC14(t *testing.T) {
 		default:
 			ps = append(ps, c14objFrom(r, c14readerConfig(rng, nil)), c14objFrom(r, &llrp.SetReaderConfig{}),
 				c14objFrom(r, c14readerConfig(rng, &llrp.KeepAliveSpec{Trigger: 0, Interval: 5000})),
-				c14objBad(r, map[string]interface{}{"KeepAliveSpec": "x"}), c14objBad(r, map[string]interface{}{"ResetToFactoryDefaults": 3}))
+				c14objBad(r, map[string]interface{}{"KeepAliveSpec": "x"}), c14objBad(r, map[string]interface{}{"ResetToFactoryDefaults": 3}),
+				// unknown fields are ignored by encoding/json; the known ones count
+				c14objRaw(r, map[string]interface{}{"Unknown": 1, "KeepAliveSpec": map[string]interface{}{"Trigger": 0, "Interval": 7}},
+					&llrp.SetReaderConfig{KeepAliveSpec: &llrp.KeepAliveSpec{Trigger: 0, Interval: 7}}),
+				c14objRaw(r, map[string]interface{}{"ROSpecID": 5}, &llrp.SetReaderConfig{}))
 		}
 		return ps
 	}
